@@ -26,7 +26,7 @@ func RunW1(p *Profile, plan, sched *simrt.Source, trace bool) *RunOut {
 		order[i], order[j] = order[j], order[i]
 	}
 	text := RenderSet(order)
-	ncalls := 1 + g.Intn(p.MaxCalls)
+	ncalls := 1 + g.Intn(deep(p.MaxCalls, p.MaxCalls))
 	if g.Pct(75) && ncalls < p.MinCalls {
 		ncalls = p.MinCalls
 	}
